@@ -93,23 +93,13 @@ def check(F, R, tier):
         const_arg(R, d, s.site, 1, {IDLE}, 'store=IDLE')
     drains = d.calls(re.escape(drain_cl.id) + '$')
     R.floor('drain() call sites', len(drains), 2)
-    waits = [s for s in d.sites if s.is_call and re.search(r'FnMut.*::call_mut$', s.callee or '') and d.chain(s.args[0]).startswith('wait_call')]
+    waits = lib.param_calls(d, 'wait_call', 4)
     dom(R, d, waits, sites_of(st), 'wait_call()<store(IDLE)', 'the flag is forced to IDLE only after the wait returned')
     # each drain call: under is_ok arm of the CAS, or dominated by the store
     for dr in drains:
         ok = any(d.dominates(s.site, dr) for s in st)
         if not ok:
-            for c in cas:
-                for b in range(len(d.blocks)):
-                    t = d.blocks[b]['t']
-                    if t[0] == 'switch':
-                        p = d.prov_operand(t[1])
-                        if p.root[0] == 'call' and (p.root[1].callee or '').endswith('::is_ok'):
-                            q = d.prov_operand(p.root[1].args[0])
-                            if q.root[0] == 'call' and q.root[1].key() == c.site.key():
-                                tt, ff = lib.bool_switch_arms(d, b)
-                                if d.edge_dominates(b, tt, dr.b):
-                                    ok = True
+            ok = any(lib.under_arm(d, F, dr, c.site, ('Ok',)) for c in cas)
         R.ob('DOM', 'DOM::%s::state-reset<drain' % fnkey(d), ok, 'drain() is reached only after the flag was reset to IDLE (CAS-ok arm or the store)', dr.where, d)
     eb = drain_cl.calls(r'WaiterInterface.*::empty_buffer$')
     ed = drain_cl.calls(r'EventState.*::drain$')
